@@ -1030,7 +1030,7 @@ theorem good_mainLoop (g : Graph) (hwf : noSelfChild g = true) (hso : stdOutputs
       exact good_finishLoop g _ (good_processQueue g hwf hso _ n4 g4).2
 
 /-- the op is not a vacation message found by a poll -/
-def XOp.notVacation : XOp → Bool
+def _root_.CylcModel.Msg.XOp.notVacation : XOp → Bool
   | .base _ => true
   | .poll _ _ _ text => !isVacated text
 
@@ -1081,4 +1081,14 @@ theorem good_runX (g : Graph) (hwf : noSelfChild g = true) (hso : stdOutputs g =
   runX_inv_mem (fun s => NoDup s ∧ GoodState g s) g ops ⟨nodup_loadFromPoint g, good_loadFromPoint g⟩
     (fun s op hm h => ⟨nodup_stepX g s op h.1, good_stepX g hwf hso s op (hv op hm) h.1 h.2⟩)
 
+/-- from any consistent state: the pooled proxy of (p, n) after a message is `Msg.step` of the one before -/
+theorem pm_pool (g : Graph) (hwf : noSelfChild g = true) (s : State) (p : Int) (n : String) (x x' : Proxy)
+    (hg : GoodState g s) (h : s.get? p n = some x) (flag : Flag) (sn : Nat) (msg : String)
+    (h' : (processMessage g 4 s p n flag sn msg).1.get? p n = some x') :
+    x' = (Msg.step (g.task? n) 4 ⟨x, false⟩ flag sn msg).1.x := by
+  have hsim : SimP g p n s ⟨x, false⟩ := ⟨wk_of_good g p n s hg, Or.inl ⟨rfl, h⟩⟩
+  obtain ⟨_, hcase⟩ := pm_simP g hwf p n 4 s ⟨x, false⟩ flag sn msg hsim
+  rcases hcase with ⟨_, hget⟩ | habs
+  · rw [h'] at hget; simp only [Option.some.injEq] at hget; exact hget
+  · rw [h'] at habs; simp at habs
 end CylcModel.Sched
